@@ -87,3 +87,53 @@ for sid, (what, needs, family) in sorted(DESC.items()):
     json.dump(meta, open(os.path.join(d, "meta.json"), "w"), indent=1)
     n += 1
 print("seeded entries:", n)
+
+# ---- second wave (agents were told which changes had already been used)
+DESC2 = {
+ "W2-C01-A": ("C01", "raft.go reset(): Progress is reset field by field in place and Match is forgotten, so it survives term changes", "a leader whose follower acked uncommitted entries, a short-lived other leader overwriting that follower's tail, the old leader winning again", "reset-keeps-match"),
+ "W2-C01-B": ("C01", "raft.go loadState restores HardState.Vote only if the voted-for peer is in the progress map (or the map is empty)", "a vote for a peer whose membership is only in the log, not in the ConfState the voter restarts from; restart between two same-term vote requests", "loadstate-drops-vote"),
+ "W2-C02-A": ("C02", "rawnode.go hardStateChanged() compares only Term and Commit: a vote granted without a term change is never handed out for persistence", "a voter that reached term T unvoted (e.g. through a pre-vote rejection), votes, restarts, votes again", "hardstate-ignores-vote"),
+ "W2-C02-B": ("C02", "raft.go Step: the term-bump exemption for granted MsgPreVoteResp is widened to granted MsgVoteResp", "async candidate loses two non-durable terms in a crash, campaigns for a lower term, a stale grant for the lost higher term is counted", "voteresp-exempt"),
+ "W2-C03-A": ("C03", "raft.go lower-term MsgStorageAppendResp is honoured via stableTo when lead == None", "async storage writes, an acknowledgement delayed across three term changes while the restoring write is still queued", "stale-ack-when-leaderless"),
+ "W2-C03-B": ("C03", "log_unstable.go stableSnapTo: check becomes i <= snapshot.Index, an ack for snapshot A discards a newer pending snapshot B", "a second, newer snapshot arrives between Ready and Advance (or while the append thread lags)", "stablesnapto"),
+ "W2-C04-A": ("C04", "raft.go stepLeader MsgProp: alreadyPending compares pendingConfIndex with committed instead of applied", "a leader whose apply lags its commit index accepts a second ConfChange while the first is committed but unapplied", "pendingconf-vs-committed"),
+ "W2-C04-B": ("C04", "raft.go MsgVote: a repeat vote request (r.Vote == m.From) is granted without re-running isUpToDate", "async candidate advertises in-memory entries, gets the vote, crashes before anything is written, re-campaigns for the same term with a shorter log", "repeat-vote-skips-uptodate"),
+ "W2-C05-A": ("C05", "log_unstable.go truncateAndAppend: the in-progress marker is clamped to the last new index instead of the first", "an in-flight unstable tail truncated and replaced by >= 2 entries after a leader change", "inprogress-clamp"),
+ "W2-C05-B": ("C05", "raft.go handleAppendEntries: the MsgAppResp{Index: committed} for a stale MsgApp is appended to r.msgs directly, bypassing send()", "async storage writes with the append thread behind and a duplicated/stale MsgApp below the commit index", "ack-bypasses-send"),
+ "W2-C06-A": ("C06", "raft.go reset(): reuse Progress/Inflights via ResetState and forget to zero Match", "see W2-C01-A", "reset-keeps-match"),
+ "W2-C06-B": ("C06", "raft.go stepFollower MsgReadIndexResp: commitTo(min(readIndex, lastIndex()))", "a deposed leader with a stale uncommitted tail follows the new leader through a heartbeat and issues ReadIndex while appends are stalled", "readindexresp-commits"),
+ "W2-C08-A": ("C08", "log_unstable.go stableSnapTo generalised the wrong way round (i <= snapshot.Index)", "two overlapping snapshots on a follower", "stablesnapto"),
+ "W2-C08-B": ("C08", "raft.go newRaft: if c.Applied > raftlog.firstIndex() instead of > 0", "restart with Applied exactly one past the snapshot index", "applied-off-by-one"),
+ "W2-C09-A": ("C09", "raft.go restore(): the stale-snapshot guard compares with applied instead of committed", "a late older snapshot delivered while a newer accepted snapshot is still unstable", "restore-guard-applied"),
+ "W2-C09-B": ("C09", "log_unstable.go stableSnapTo rewritten as a guard clause with the comparison inverted", "snapshot 15 being written, snapshot 20 accepted meanwhile, then the write of 15 acknowledged", "stablesnapto"),
+ "W2-C14-A": ("C14", "raft.go hup: hasUnappliedConfChanges() runs before the promotable() check", "Campaign()/MsgTimeoutNow while a restored snapshot is not yet acknowledged", "hup-guard-order"),
+ "W2-C14-B": ("C14", "log_unstable.go stableSnapTo uses < instead of ==", "see W2-C09-B", "stablesnapto"),
+ "W2-C15-A": ("C15", "raft.go tickElection: early return for !promotable() also skips electionElapsed++", "a learner (or node with a pending snapshot) under CheckQuorum never lets its lease expire and ignores every MsgVote", "lease-never-expires"),
+ "W2-C15-B": ("C15", "raft.go handleAppendEntries: a non-empty MsgApp entirely below the commit index is dropped instead of acknowledged", "a leader whose Match for a follower is stale probes from Match+1 forever", "drop-append-below-commit"),
+ "W2-C18-A": ("C18", "storage.go MemoryStorage.ApplySnapshot: msIndex >= snapIndex became msIndex > snapIndex", "re-installing the snapshot the storage already holds after entries were appended", "applysnapshot-same-index"),
+ "W2-C18-B": ("C18", "log_unstable.go stableSnapTo: the equality check became i < u.offset", "a stale persistence ack for snapshot 10 after snapshot 20 was restored", "stablesnapto"),
+ "W2-C20-A": ("C20", "raft.go stepLeader MsgProp loop ranges over entries[first:] but still indexes m.GetEntries()[i]", "a batched MsgProp where normal entries precede a conf change that must be refused", "prop-loop-offset"),
+ "W2-C20-B": ("C20", "raft.go appendEntry: a batch exceeding MaxUncommittedEntriesSize has its fitting prefix appended and still returns ErrProposalDropped", "the limit configured, a non-empty uncommitted tail, a batched proposal whose first entries still fit", "partial-append-dropped"),
+}
+SRC2 = "/tmp/seedout2"
+n2 = 0
+for sid, (prop, what, needs, family) in sorted(DESC2.items()):
+    _, c, v = sid.split("-")
+    src = os.path.join(SRC2, c)
+    d = os.path.join(out, sid)
+    if os.path.exists(os.path.join(src, v + ".patch.diff")):
+        os.makedirs(d, exist_ok=True)
+        shutil.copy(os.path.join(src, v + ".patch.diff"), os.path.join(d, "patch.diff"))
+        shutil.copy(os.path.join(src, v + "_demo_test.go"), os.path.join(d, "demo_test.go"))
+    elif not os.path.exists(d):
+        print("missing source for", sid); continue
+    meta = {
+        "id": sid, "breaks_property": prop, "family": family, "change": what, "needs_to_manifest": needs,
+        "demonstration": {"file": "demo_test.go", "package_dir": ".", "run": "GOFLAGS=-mod=mod GOPROXY=off go test -vet=off -count=1 -run ZZSeed ."},
+        "confirmed": "scripts/confirm_seed.sh seeded/%s/patch.diff seeded/%s/demo_test.go . ZZSeed -> demo passes without the patch, complete unedited suite passes with it (rafttest's wall-clock tests re-run alone when the machine was loaded), demo fails with it" % (sid, sid),
+        "origin": "second wave: an independent sub-agent given only the property text, a scratch worktree and the list of changes already used",
+        "detection": results.get(sid, {}),
+    }
+    json.dump(meta, open(os.path.join(d, "meta.json"), "w"), indent=1)
+    n2 += 1
+print("second-wave entries:", n2)
